@@ -159,7 +159,10 @@ pub fn json_str(s: &str) -> String {
 
 fn run_sharded(prop: &str, tier: &str, seed: u64, outdir: &str, corpus: &str) {
     let n: usize = std::env::var("VERIF_SHARDS").ok().and_then(|s| s.parse().ok()).unwrap_or(12);
+    // a shard is stopped when the case in flight has not changed for `timeout` (a solver call that does
+    // not return), or when the whole run exceeds `cap` (quick: the same limit; thorough: 6 hours)
     let timeout = std::time::Duration::from_secs(std::env::var("VERIF_SHARD_TIMEOUT").ok().and_then(|s| s.parse().ok()).unwrap_or(900));
+    let cap = if tier == "thorough" { std::time::Duration::from_secs(6 * 3600) } else { timeout };
     std::fs::create_dir_all(outdir).unwrap();
     let exe = std::env::current_exe().unwrap();
     let spawn = |i: usize, dir: &str| {
@@ -189,7 +192,11 @@ fn run_sharded(prop: &str, tier: &str, seed: u64, outdir: &str, corpus: &str) {
             match child.try_wait().unwrap() {
                 Some(st) => break Some(st),
                 None => {
-                    if start.elapsed() > timeout {
+                    let stalled = match std::fs::metadata(format!("{}/inflight.txt", dir)).and_then(|m| m.modified()) {
+                        Ok(t) => t.elapsed().map(|e| e > timeout).unwrap_or(false),
+                        Err(_) => start.elapsed() > timeout,
+                    };
+                    if stalled || start.elapsed() > cap {
                         let _ = child.kill();
                         let _ = child.wait();
                         break None;
@@ -224,7 +231,18 @@ fn run_sharded(prop: &str, tier: &str, seed: u64, outdir: &str, corpus: &str) {
                     children.push((i, dir, c, attempts + 1));
                 }
             }
-            None => out.fail(&format!("shard {} did not finish within {:?}", i, timeout), &inflight, "process_timeout"),
+            None => {
+                out.fail(&format!("shard {}: the case in flight did not finish within {:?}", i, timeout), &inflight, "process_timeout");
+                // run the rest of the shard without the case that hangs
+                if attempts < 8 && !inflight.is_empty() && start.elapsed() <= cap {
+                    use std::io::Write;
+                    let mut f = std::fs::OpenOptions::new().create(true).append(true).open(format!("{}/crashed.txt", dir)).unwrap();
+                    writeln!(f, "{}", inflight).unwrap();
+                    let _ = std::fs::remove_file(format!("{}/inflight.txt", dir));
+                    let c = spawn(i, &dir);
+                    children.push((i, dir, c, attempts + 1));
+                }
+            }
         }
     }
     std::fs::write(format!("{}/requests.txt", outdir), rq).unwrap();
